@@ -957,3 +957,145 @@ REG.spec('agent/scheduler/base.py:AgentSchedulingComponent.control_cb#raptor-can
     },
     opts   = dict(parallel=8),
     serves = ['C08'])
+
+
+# ------------------------------------------------------------------------------
+# C20 / C04: what happens to the tasks the intake set aside for a raptor master
+# (to_raptor[name]): handed to the named master's queue, spread over the registered
+# queues ('*'), or parked until a master registers - each task exactly one of these
+RPut   = T.Rec('RPut', queue=T.Str, uid=T.Str)
+RQMap  = T.Map(T.Str, T.Any)
+RBack  = T.Map(T.Str, ATaskL)
+
+def _rq_put_list(qexpr):
+    def h(ex, node, st):
+        q  = C.coerce(ex.ev(qexpr(node), st), T.Str)
+        ts = ex.ev(node.args[0], st)
+        log = ex.get_var(st, 'rput')
+        lty = log.ty
+        l0 = lty.len(log.term)
+        if isinstance(ts.ty, C.TRec):
+            e = RPut.mk(q.term, ts.ty.get(ts.term, 'uid'))
+            st.env['rput'] = Val(lty, lty.mk(z3.Store(lty.arr(log.term), l0, e), l0 + 1))
+            return C.NONE
+        n = ts.ty.len(ts.term)
+        i = z3.Int(C.fresh_name('i'))
+        out = ex.fresh_wf(st, lty, 'rput')
+        st.assume(lty.len(out.term) == l0 + n)
+        st.assume(z3.ForAll([i], z3.Implies(z3.And(0 <= i, i < l0), z3.Select(lty.arr(out.term), i) == z3.Select(lty.arr(log.term), i))))
+        st.assume(z3.ForAll([i], z3.Implies(z3.And(l0 <= i, i < l0 + n),
+                  z3.Select(lty.arr(out.term), i) == RPut.mk(q.term, ts.ty.elem.get(z3.Select(ts.ty.arr(ts.term), i - l0), 'uid'))),
+                  patterns=[z3.Select(lty.arr(out.term), i)]))
+        st.env['rput'] = out
+        return C.NONE
+    h.mutates = ('rput',)
+    return h
+
+_q_of = lambda node: node.func.value.slice          # self._raptor_queues[<q>].put(..)
+
+REG.spec(_FRAG + '#to-raptor',
+    fragment = 'if name in self._raptor_queues:',
+    params   = dict(name=T.Str, to_raptor=Raptor),
+    self     = dict(_raptor_queues=RQMap, _raptor_tasks=RBack),
+    ghost    = dict(rput=T.List(RPut)),
+    locals   = dict(names=T.List(T.Str), n_names=T.Int, task=ATask, qname=T.Str),
+    calls    = {'self._raptor_queues[name].put': _rq_put_list(_q_of), 'self._raptor_queues[qname].put': _rq_put_list(_q_of)},
+    requires = ['indom(to_raptor, name)'],
+    modifies = ['self._raptor_tasks', 'rput'],
+    raises   = {},
+    ensures  = [
+      ('tasks-for-a-registered-master-go-to-its-queue-once-in-order',
+       'implies(indom(self._raptor_queues, name), self._raptor_tasks == old(self._raptor_tasks) and '
+       'len(rput) == len(old(rput)) + len(at(to_raptor, name)) and forall(lambda i: implies(0 <= i < len(at(to_raptor, name)), '
+       'rput[len(old(rput)) + i].queue == name and rput[len(old(rput)) + i].uid == at(to_raptor, name)[i].uid)))'),
+      ('tasks-for-any-master-go-to-one-registered-queue-each',
+       'implies(not indom(self._raptor_queues, name) and bool(self._raptor_queues) and name == "*", '
+       'self._raptor_tasks == old(self._raptor_tasks) and len(rput) == len(old(rput)) + len(at(to_raptor, name)) and '
+       'forall(lambda i: implies(0 <= i < len(at(to_raptor, name)), indom(self._raptor_queues, rput[len(old(rput)) + i].queue) and '
+       'rput[len(old(rput)) + i].uid == at(to_raptor, name)[i].uid)))'),
+      ('tasks-for-a-master-not-yet-registered-are-parked-behind-those-already-parked',
+       'implies(not indom(self._raptor_queues, name) and not (bool(self._raptor_queues) and name == "*"), '
+       'rput == old(rput) and indom(self._raptor_tasks, name) and '
+       'at(self._raptor_tasks, name) == ite(indom(old(self._raptor_tasks), name), at(old(self._raptor_tasks), name) + at(to_raptor, name), at(to_raptor, name)) and '
+       'forall(lambda q: implies(q != name, indom(self._raptor_tasks, q) == indom(old(self._raptor_tasks), q) and '
+       'at(self._raptor_tasks, q) == at(old(self._raptor_tasks), q)), Str))'),
+      ('earlier-hand-overs-kept', 'forall(lambda k: implies(0 <= k < len(old(rput)), rput[k] == old(rput)[k]))'),
+    ],
+    loops = {'1': ['self._raptor_tasks == old(self._raptor_tasks)', 'len(rput) == len(old(rput)) + i_idx',
+                   'n_names == len(names)', 'n_names > 0',
+                   'forall(lambda m: implies(0 <= m < len(names), indom(self._raptor_queues, names[m])))',
+                   'forall(lambda k: implies(0 <= k < len(old(rput)), rput[k] == old(rput)[k]))',
+                   'forall(lambda i: implies(0 <= i < i_idx, indom(self._raptor_queues, rput[len(old(rput)) + i].queue) and '
+                   'rput[len(old(rput)) + i].uid == at(to_raptor, name)[i].uid))']},
+    serves = ['C20', 'C04'])
+
+_CCB = 'agent/scheduler/base.py:AgentSchedulingComponent.control_cb'
+_put_name = {'self._raptor_queues[name].put': _rq_put_list(_q_of)}
+
+def _relayed(key):
+    return ('implies(indom(old(self._raptor_tasks), %(k)s), not indom(self._raptor_tasks, %(k)s) and '
+            'len(rput) == len(old(rput)) + len(at(old(self._raptor_tasks), %(k)s)) and '
+            'forall(lambda i: implies(0 <= i < len(at(old(self._raptor_tasks), %(k)s)), rput[len(old(rput)) + i].queue == name and '
+            'rput[len(old(rput)) + i].uid == at(old(self._raptor_tasks), %(k)s)[i].uid))) and '
+            'implies(not indom(old(self._raptor_tasks), %(k)s), rput == old(rput) and self._raptor_tasks == old(self._raptor_tasks)) and '
+            'forall(lambda q: implies(q != %(k)s, indom(self._raptor_tasks, q) == indom(old(self._raptor_tasks), q) and '
+            'at(self._raptor_tasks, q) == at(old(self._raptor_tasks), q)), Str) and '
+            'forall(lambda k: implies(0 <= k < len(old(rput)), rput[k] == old(rput)[k]))') % dict(k=key)
+
+REG.spec(_CCB + '#relay-named',
+    fragment = 'if name in self._raptor_tasks:', fragment_index = 0, fragment_count = 2,
+    params   = dict(name=T.Str),
+    self     = dict(_raptor_queues=RQMap, _raptor_tasks=RBack),
+    ghost    = dict(rput=T.List(RPut)),
+    locals   = dict(tasks=ATaskL),
+    calls    = _put_name,
+    modifies = ['self._raptor_tasks', 'rput'],
+    raises   = {},
+    ensures  = [('tasks-parked-for-the-registering-master-are-handed-to-its-queue-once-and-leave-the-backlog', _relayed('name'))],
+    serves   = ['C20', 'C04'])
+
+REG.spec(_CCB + '#relay-any',
+    fragment = "if '*' in self._raptor_tasks:",
+    params   = dict(name=T.Str),
+    self     = dict(_raptor_queues=RQMap, _raptor_tasks=RBack),
+    ghost    = dict(rput=T.List(RPut)),
+    locals   = dict(tasks=ATaskL),
+    calls    = _put_name,
+    modifies = ['self._raptor_tasks', 'rput'],
+    raises   = {},
+    ensures  = [('tasks-parked-for-any-master-are-handed-to-the-registering-master-once-and-leave-the-backlog', _relayed('"*"'))],
+    serves   = ['C20', 'C04'])
+
+RFail = T.Rec('RFail', uid=T.Str)
+def _note_fail(ex, node, st):
+    t = ex.ev(node.args[0], st)
+    log = ex.get_var(st, 'rfail')
+    ty = log.ty
+    n = ty.len(log.term)
+    st.env['rfail'] = Val(ty, ty.mk(z3.Store(ty.arr(log.term), n, t.ty.get(t.term, 'uid')), n + 1))
+    return C.NONE
+_note_fail.mutates = ('rfail',)
+
+REG.spec(_CCB + '#master-gone',
+    fragment = 'if name in self._raptor_tasks:', fragment_index = 1, fragment_count = 2,
+    params   = dict(name=T.Str),
+    self     = dict(_raptor_tasks=RBack),
+    ghost    = dict(rfail=T.List(T.Str)),
+    locals   = dict(tasks=ATaskL),
+    calls    = {'self._fail_task': _note_fail},
+    modifies = ['self._raptor_tasks', 'rfail'],
+    raises   = {},
+    ensures  = [('tasks-parked-for-a-master-that-disappears-are-failed-once-each-and-leave-the-backlog',
+                 'implies(indom(old(self._raptor_tasks), name), not indom(self._raptor_tasks, name) and '
+                 'len(rfail) == len(old(rfail)) + len(at(old(self._raptor_tasks), name)) and '
+                 'forall(lambda i: implies(0 <= i < len(at(old(self._raptor_tasks), name)), rfail[len(old(rfail)) + i] == at(old(self._raptor_tasks), name)[i].uid))) and '
+                 'implies(not indom(old(self._raptor_tasks), name), rfail == old(rfail) and self._raptor_tasks == old(self._raptor_tasks)) and '
+                 'forall(lambda q: implies(q != name, indom(self._raptor_tasks, q) == indom(old(self._raptor_tasks), q) and '
+                 'at(self._raptor_tasks, q) == at(old(self._raptor_tasks), q)), Str)')],
+    loops    = {'1': ['not indom(self._raptor_tasks, name)', 'len(rfail) == len(old(rfail)) + i_task',
+                      'tasks == at(old(self._raptor_tasks), name)',
+                      'forall(lambda k: implies(0 <= k < len(old(rfail)), rfail[k] == old(rfail)[k]))',
+                      'forall(lambda i: implies(0 <= i < i_task, rfail[len(old(rfail)) + i] == tasks[i].uid))',
+                      'forall(lambda q: implies(q != name, indom(self._raptor_tasks, q) == indom(old(self._raptor_tasks), q) and '
+                      'at(self._raptor_tasks, q) == at(old(self._raptor_tasks), q)), Str)']},
+    serves   = ['C20', 'C04', 'C05'])
